@@ -336,6 +336,15 @@ def _all_emitted_fact(body, bb):
     return None
 
 
+def reads_from_io(facts, body):
+    """does work() get its data through io::Read::read - itself, in a method of its block, or in a crate function up to three
+    calls away (`self.refill()` -> `read_data(&mut self.file, ..)`)"""
+    if any(list(b.calls_to(READ)) for b in [body] + adt_helpers(facts, body)):
+        return True
+    from ..effects import _cg
+    return body.q in _cg(facts)[0].transitive({READ}, depth=3)
+
+
 def rule_r6(facts, col):
     """a file-backed source decides 'end of this repetition' only on read() == 0 or on its byte counter reaching 0 -
     never on a short read (a BufReader/pipe/socket returns short reads in the middle of the data)"""
@@ -343,7 +352,7 @@ def rule_r6(facts, col):
     for body in facts.impl_bodies(BLOCK_TRAIT, "work"):
         if body.self_adt not in rb:
             continue
-        in_memory = not any(list(b.calls_to(READ)) for b in [body] + adt_helpers(facts, body))
+        in_memory = not reads_from_io(facts, body)
         # again() sites: in work() itself, or in a helper of the same ADT (then judged at each of its call sites)
         sites = []
         for bb, t in body.calls_to(AGAIN):
@@ -871,9 +880,16 @@ def rule_r14(facts, col, rule_id="C16.R14"):
     second time for the same boundary: every retry of the blocked call burns one repetition."""
     rb = repeat_blocks(facts)
     n = 0
-    for body in facts.impl_bodies(BLOCK_TRAIT, "work"):
+    works = [b for b in facts.impl_bodies(BLOCK_TRAIT, "work") if b.self_adt in rb]
+    # ... and methods of the block that ask again() themselves (`return self.end_of_pass()`): judged where the question is
+    # asked; an alarm only when every caller hands the method's result straight back (nothing after it could still reset)
+    wq = {b.q for b in works}
+    delegs = [b for b in facts.bodies if b.kind != "closure" and b.self_adt in rb and b.q not in wq and b.name != "work"
+              and not b.from_derive and list(b.calls_to(AGAIN))]
+    for body in works + delegs:
         if body.self_adt not in rb:
             continue
+        is_deleg = body.q not in wq
         rfield = rb[body.self_adt]
         resets = set()
         for bb in sorted(body.reachable(0)):
@@ -918,6 +934,15 @@ def rule_r14(facts, col, rule_id="C16.R14"):
                 col.silent(rule_id, key, body.where(abb), "again()'s result is not branched on directly")
                 continue
             lost = okrets & reach_avoiding(body, tr, resets - {tr}) if tr not in resets else set()
+            if lost and is_deleg:
+                tail = True
+                for cb, cbb, ct in facts.callers_of(body.q):
+                    rets = [peel(e, through_try=False) for _b, _i, e in assigns_to_return(cb)]
+                    if not any(e is not None and e.k == "call" and e.bb == cbb for e in rets):
+                        tail = False
+                if not tail:
+                    col.silent(rule_id, key, body.where(abb), "asked in a helper whose callers continue after it: not decided")
+                    continue
             if lost:
                 col.bad(rule_id, key, body.where(abb),
                         "after Repeat::again() has counted a repetition, work() can return (%s) without having reset the source's position "
